@@ -99,6 +99,10 @@ func exploreUnit(o *checkOpts, unit *CheckSpec, patches []SourcePatch, dumpDir s
 	r := newRun(prog, unit, o.solver, o.timeout)
 	if dumpDir != "" && o.crossEvery > 0 {
 		r.dumpDir, r.dumpEvery = dumpDir, o.crossEvery
+		r.dumpMax = 3
+		if o.tier == "thorough" {
+			r.dumpMax = 12
+		}
 	}
 	t1 := time.Now()
 	if err := r.execute(jobs, o.workers); err != nil {
@@ -249,9 +253,11 @@ func cmdCheck(args []string) {
 		to = v
 	}
 	o.timeout = time.Duration(to) * time.Second
-	o.crossEvery = 0
+	o.crossEvery = 97 // every 97th query of each worker is re-decided by the other solvers (capped per worker)
 	if spec.CrossEvery != nil {
-		o.crossEvery = spec.CrossEvery[*tier]
+		if v, ok := spec.CrossEvery[*tier]; ok {
+			o.crossEvery = v
+		}
 	}
 	os.Exit(runCheck(o, spec, !*noSelftest))
 }
